@@ -59,7 +59,7 @@ def sta_lta_clause(cl, rng, n, replay):
         raws = [envelope_window(rng, Ni, dt, k) for Ni, k in zip(Ns, kinds)]
         sta = float(rng.choice([0.2, 0.5, 1.0]))
         lta = float(rng.choice([2.0, 3.0, min(Ns) * dt * 0.9]))
-        mn, mx = float(rng.choice([0.1, 0.2, 0.5])), float(rng.choice([2.0, 2.5, 4.0]))
+        mn, mx = float(rng.choice([0.1, 0.2, 0.5, 0.0])), float(rng.choice([2.0, 2.5, 4.0]))       # (a lower limit of 0: no lower limit)
         comps = COMPS[j % len(COMPS)]
         scale = float(rng.choice([1.0, 1e-6, 1e-13, 1e5]))
         recs = [rp.mk_record(scale * r[0], scale * r[1], scale * r[2], dt) for r in raws]
